@@ -309,7 +309,7 @@ class Runner:
         self.known_printed = []
 
     # -- proofs ---------------------------------------------------------------------------------
-    def prove(self, translate=None):
+    def prove(self, translate=None, extra=()):
         prop_v = f"Props/{self.pid}.v"
         try:
             if translate:
@@ -317,6 +317,7 @@ class Runner:
             targets = [prop_v + "o"]
             if os.path.exists(os.path.join(COQ, f"Corr/{self.pid}.v")):
                 targets.append(f"Corr/{self.pid}.vo")
+            targets += list(extra)
             rc, out = coq_make(targets)
             if rc != 0:
                 m = re.search(r'File "\./([^"]+)", line (\d+)', out)
